@@ -346,6 +346,9 @@ class Zeroconf(QuietLogger):
         info.set_server_if_missing()
         await self.async_wait_for_start()
         await self.async_check_service(info, allow_name_change, cooperating_responders, strict)
+        # Refuse what cannot be put on the wire before it becomes answerable:
+        # raises NamePartTooLongException / struct.error to the caller.
+        self.generate_service_broadcast(info, None).packets()
         self.registry.async_add(info)
         return asyncio.ensure_future(self._async_broadcast_service(info, _REGISTER_TIME, None))
 
@@ -368,6 +371,7 @@ class Zeroconf(QuietLogger):
         Zeroconf will then respond to requests for information for that
         service."""
         info.set_server_if_missing()
+        self.generate_service_broadcast(info, None).packets()
         self.registry.async_update(info)
         return asyncio.ensure_future(self._async_broadcast_service(info, _REGISTER_TIME, None))
 
